@@ -432,7 +432,12 @@ class LoaderBase(ABC):
             local_shifts[i] = loc_shift * self.scale
 
         rotator = Rotation.from_quat(local_rot)
-        mole_aligned = self.molecules.linear_transform(local_shifts, rotator)
+        # Templates (not subvolumes) are rotated during the search: the optimal shift is
+        # measured in the frame of the input molecule and must not be rotated by the
+        # optimal rotation.
+        mole_aligned = self.molecules.translate_internal(
+            local_shifts
+        ).rotate_by_rotvec_internal(rotator.as_rotvec())
 
         mole_aligned.features = self.molecules.features.with_columns(
             _misc.get_feature_list(scores, local_shifts, rotator.as_rotvec()),
@@ -569,7 +574,12 @@ class LoaderBase(ABC):
             local_shifts[i] = loc_shift * self.scale
 
         rotator = Rotation.from_quat(local_rot)
-        mole_aligned = self.molecules.linear_transform(local_shifts, rotator)
+        # Templates (not subvolumes) are rotated during the search: the optimal shift is
+        # measured in the frame of the input molecule and must not be rotated by the
+        # optimal rotation.
+        mole_aligned = self.molecules.translate_internal(
+            local_shifts
+        ).rotate_by_rotvec_internal(rotator.as_rotvec())
 
         if remainder > 1:
             labels %= remainder  # type: ignore
